@@ -153,6 +153,13 @@ def generate():
     o.append("/-- every module under pycoin/symbols/, in directory order -/")
     o.append("def all : List Network := [%s]" % ", ".join("net_" + m for m, _ in nets))
     o.append("")
+    groups = {}
+    for m, fields in nets:
+        groups.setdefault(dict(fields)["networkName"], []).append(m)
+    o.append("/-- networks (modules) that share a `network_name`: a per-string record keyed by the name alone would be shared by them -/")
+    o.append("def sameName : List (String × List String) := [%s]" % ", ".join(
+        "(%s, [%s])" % (k, ", ".join(lean_str(m) for m in v)) for k, v in groups.items() if len(v) > 1))
+    o.append("")
     tpls = templates()
     for i, (text, b) in enumerate(tpls):
         o.append("/-- `%s` -/\ndef template%d : Bytes := %s" % (text, i, lean_bytes(b)))
